@@ -10,7 +10,9 @@ import (
 	"sort"
 	"strings"
 	"sync"
+	"time"
 
+	"github.com/mutagen-io/mutagen/pkg/filesystem/behavior"
 	"github.com/mutagen-io/mutagen/pkg/synchronization"
 	"github.com/mutagen-io/mutagen/pkg/synchronization/core"
 	"github.com/mutagen-io/mutagen/pkg/synchronization/rsync"
@@ -86,11 +88,26 @@ func c41() {
 			mu.Unlock()
 		})
 	}
+	hb := startHeartbeat()
+	nC := r.Pick(8, 120)
+	for i := 0; i < nC; i++ {
+		i := i
+		q.submit(func() {
+			rng := r.Rand(fmt.Sprintf("poll-limit-%d", i))
+			dir := filepath.Join(base, fmt.Sprintf("poll-limit-%d", i))
+			defer os.RemoveAll(dir)
+			if s := c41PollLimit(r, rng, i, dir, hb); s != nil {
+				r.Sample(s)
+			}
+		})
+	}
 	q.wait()
+	hb.close()
+	r.Assume("(C) with the poll watcher running, 'the poller has rescanned the grown root' is established by a returned Poll followed by a window of 1.3 s without a further signal while the heartbeat control shows no gap >= 1 s; otherwise the case is inconclusive")
 	r.Assume("'already staged' is judged by the harness: it delivered exactly that (path, digest) in an earlier round and a file whose name starts with the digest and whose sha1 equals it lies in the staging root; 'exists in the root' is judged by sha1 over the root")
 	r.Assume("the converse (content available => path omitted) is asserted only when nothing changed between Scan and Stage; with edits in between only 'omitted => available' is asserted")
 	r.Assume("Stage with an empty request returns before any check in the real code and is therefore not expected to be refused; refusal without a preceding Scan is asserted for non-empty requests and for Transition")
-	r.Finish("(A) staging cases: roots with duplicate contents, optional earlier round (same or restarted endpoint) leaving staged content, optional renames/copies/edits/deletions between Scan and Stage, request mixing contents available in the root, pre-staged, and new, random entry limit around the scanned count, then supply and Transition; (B) random call histories of scan/stage/transition/edit against a two-flag reference model with entry limit; distinct = (item type, omitted?, quiescent?, limit outcome) and (history op, expected refusal, outcome)", 15)
+	r.Finish("(A) staging cases: roots with duplicate contents, optional earlier round (same or restarted endpoint) leaving staged content, optional renames/copies/edits/deletions between Scan and Stage, request mixing contents available in the root, pre-staged, and new, random entry limit around the scanned count, then supply and Transition; (B) random call histories of scan/stage/transition/edit against a two-flag reference model with entry limit; distinct = (item type, omitted?, quiescent?, limit outcome) and (history op, expected refusal, outcome); (C) force-poll endpoints (1 s) with accelerated scans: Scan within the limit, grow the root past the limit externally, wait for the poller, then Scan must fail and Stage/Transition must be refused", 15)
 }
 
 func c41StageCase(r *vk.Run, rng *rand.Rand, index int, dir string) (*c41Case, map[string]any) {
@@ -614,4 +631,99 @@ func describeChanges(cs []*core.Change) string {
 		parts = append(parts, fmt.Sprintf("%s:%s->%s", c.Path, kindName(c.Old), kindName(c.New)))
 	}
 	return "[" + strings.Join(parts, " ") + "]"
+}
+
+// c41PollLimit: the entry limit with the poll watcher running and accelerated scans.
+func c41PollLimit(r *vk.Run, rng *rand.Rand, index int, dir string, hb *heartbeat) map[string]any {
+	root := filepath.Join(dir, "beta")
+	tree := fsx.Tree{}
+	for j := 0; j < 2+rng.Intn(5); j++ {
+		tree[fmt.Sprintf("f%d", j)] = &fsx.Node{Kind: fsx.KFile, Content: token(rng, 1+rng.Intn(500)), Mode: 0o644}
+	}
+	if err := fsx.Materialize(root, tree); err != nil {
+		r.Inconclusive("harness:materialize")
+		return nil
+	}
+	count0, _, _ := diskCount(root)
+	slack := uint64(1 + rng.Intn(3))
+	limit := count0 + slack
+	grow := int(slack) + 1 + rng.Intn(3)
+	cfg := &synchronization.Configuration{
+		WatchMode:            synchronization.WatchMode_WatchModeForcePoll,
+		WatchPollingInterval: 1,
+		ScanMode:             synchronization.ScanMode_ScanModeAccelerated,
+		ProbeMode:            behavior.ProbeMode_ProbeModeAssume,
+		MaximumEntryCount:    limit,
+	}
+	fmt.Printf("C41 poll-limit case %d: %d entries, limit %d, growing by %d\n", index, count0, limit, grow)
+	le, err := newLocalEndpoint("C41", root, cfg)
+	if err != nil {
+		r.Inconclusive("harness:endpoint")
+		return nil
+	}
+	defer le.shutdown()
+	ctx := context.Background()
+	t0 := time.Now()
+	if !drain(le.ep) {
+		r.Inconclusive("never-quiet")
+		return nil
+	}
+	snap, err, _ := le.ep.Scan(ctx, nil, false)
+	if err != nil || snap.Content.Count() != count0 {
+		r.Inconclusive("harness:first-scan")
+		return nil
+	}
+	for j := 0; j < grow; j++ {
+		os.WriteFile(filepath.Join(root, fmt.Sprintf("grown%d", j)), token(rng, 30), 0o644)
+	}
+	countNow, _, _ := diskCount(root)
+	// Wait until the poller has certainly rescanned the quiescent, grown root.
+	signalled, _ := pollOnce(le.ep, c42PollBound)
+	quiet := drain(le.ep)
+	if gap := hb.maxSince(t0); !signalled || !quiet || gap >= time.Second {
+		r.Inconclusive("poller-rescan-not-established")
+		return nil
+	}
+	r.Eval(1)
+	witness := map[string]any{"index": index, "initial_count": count0, "limit": limit, "count_after_growth": countNow}
+	outcome := "scan-refused"
+	snap2, err, _ := le.ep.Scan(ctx, nil, false)
+	if err == nil {
+		outcome = "scan-accepted"
+		witness["snapshot_entries"] = snap2.Content.Count()
+		if snap2.Content.Count() > limit {
+			r.Violation(map[string]string{"rule": "scan-returned-over-limit-snapshot", "watch": "poll"},
+				fmt.Sprintf("with the poll watcher running, Scan returned a snapshot of %d entries although the limit is %d", snap2.Content.Count(), limit), witness)
+		} else {
+			// A stale but within-limit snapshot is allowed by acceleration; the case says nothing then.
+			r.Inconclusive("scan-returned-stale-snapshot")
+			return nil
+		}
+	}
+	// Stage of one further path must be refused (the stale count would admit it: count0+1 <= limit).
+	data := token(rng, 100)
+	if _, _, _, err := le.ep.Stage([]string{"further"}, [][]byte{sha1Of(data)}); err == nil {
+		outcome += "|stage-accepted"
+		r.Violation(map[string]string{"rule": "stage-accepted", "why": "limit", "watch": "poll"},
+			fmt.Sprintf("with %d entries on disk (poller rescanned) and a limit of %d, Stage of a further path was accepted", countNow, limit), witness)
+	} else {
+		outcome += "|stage-refused"
+	}
+	// A transition adding a directory must change nothing.
+	_, before, _ := diskCount(root)
+	results, problems, _, err := le.ep.Transition(ctx, []*core.Change{{Path: "furtherdir", New: &core.Entry{Kind: core.EntryKind_Directory}}})
+	cntAfter, after, _ := diskCount(root)
+	same, _ := strictDiff("", before, after)
+	if err == nil && (!same || len(problems) == 0 || len(results) != 1 || results[0] != nil) {
+		outcome += "|transition-applied"
+		witness["count_after_transition"] = cntAfter
+		r.Violation(map[string]string{"rule": "over-limit-transition-not-refused-cleanly", "watch": "poll"},
+			fmt.Sprintf("with %d entries on disk (poller rescanned) and a limit of %d, a transition creating a directory was not refused cleanly (disk unchanged: %v, problems: %d)", countNow, limit, same, len(problems)), witness)
+	} else {
+		outcome += "|transition-refused"
+	}
+	r.Distinct(fmt.Sprintf("poll-limit|slack=%d|%s", slack, outcome))
+	r.Count("poll_limit_cases_judged", 1)
+	witness["outcome"] = outcome
+	return witness
 }
